@@ -517,7 +517,7 @@ func (c *CCtx) call(n Call) CVal {
 			bindFail("seq of non-slice")
 		}
 		es := c.e.sorts.SortOf(sl.Elem())
-		return CVal{T: fmt.Sprintf("(mkview (select %s (base %s)) (off %s) (len %s))", c.heap(c.e.sorts.HeapSlice(es)), a.T, a.T, a.T), Sort: "(View " + es + ")"}
+		return CVal{T: fmt.Sprintf("((as mkview (View %s)) (select %s (base %s)) (off %s) (len %s))", es, c.heap(c.e.sorts.HeapSlice(es)), a.T, a.T, a.T), Sort: "(View " + es + ")"}
 	case "bytes", "oidv":
 		a := arg(0)
 		fn := map[string]string{"bytes": "bytesv", "oidv": "oidv"}[n.Fun]
@@ -542,6 +542,13 @@ func (c *CCtx) call(n Call) CVal {
 			return CVal{T: parts[1], Sort: parts[0]}
 		}
 		bindFail("entry(%v): loop not entered on this path", ex)
+	case "allocated": // allocated(x): the slice's backing array / the pointer's object was allocated before this point
+		a := arg(0)
+		t := a.T
+		if a.Sort == "Slice" {
+			t = fmt.Sprintf("(base %s)", a.T)
+		}
+		return CVal{T: fmt.Sprintf("(and (<= 0 %s) (< %s %s))", t, t, c.st.nextRef), Sort: "Bool"}
 	case "fresh":
 		a := arg(0)
 		t := a.T
@@ -609,6 +616,8 @@ func (c *CCtx) call(n Call) CVal {
 		mt := m.GoT.Underlying().(*types.Map)
 		hd := c.e.sorts.HeapMapDom(c.e.sorts.SortOf(mt.Key()))
 		return CVal{T: fmt.Sprintf("(select (select %s %s) %s)", c.heap(hd), m.T, arg(1).T), Sort: "Bool"}
+	case "b8": // b8(5): a byte literal
+		return toBV(arg(0))
 	case "oid": // oid("2.5.4.6"): a literal OBJECT IDENTIFIER value
 		lit, ok := n.Args[0].(StrLit)
 		if !ok {
@@ -624,6 +633,13 @@ func (c *CCtx) call(n Call) CVal {
 		bi, ok := c.st.boxed[a.T]
 		if !ok || bi.Typ.String() != expandType(n.Args[1].(StrLit).V) {
 			bindFail("unboxed: dynamic type of %s is not statically %s", a.T, n.Args[1].(StrLit).V)
+		}
+		return c.val(bi.Term, bi.Typ)
+	case "unbox": // unbox(v): the concrete value inside an interface whose dynamic type is statically known (whatever it is)
+		a := arg(0)
+		bi, ok := c.st.boxed[a.T]
+		if !ok {
+			bindFail("unbox: dynamic type of %s is not statically known", a.T)
 		}
 		return c.val(bi.Term, bi.Typ)
 	case "typeis":
@@ -646,6 +662,12 @@ func (c *CCtx) call(n Call) CVal {
 	name := strings.TrimPrefix(n.Fun, "spec.")
 	name = strings.TrimPrefix(name, "#")
 	if len(n.Args) == 0 {
+		if strings.HasPrefix(name, "G_") { // a package-level pointer variable referred to by its engine symbol
+			if c.e.autoGlobals == nil {
+				c.e.autoGlobals = map[string]bool{}
+			}
+			c.e.autoGlobals[name] = true // declared as Int at the end unless the execution declares it itself
+		}
 		return CVal{T: name, Sort: "?"}
 	}
 	var as []string
@@ -833,4 +855,42 @@ func basicTypeOf(tn string) types.Type {
 		}
 	}
 	return nil
+}
+
+// collectEntriesOrd finds entry(ord, e) sub-expressions for the given loop ordinal.
+func collectEntriesOrd(x Expr, ord int, out *[]Expr) {
+	switch n := x.(type) {
+	case Unary:
+		collectEntriesOrd(n.X, ord, out)
+	case Binary:
+		collectEntriesOrd(n.X, ord, out)
+		collectEntriesOrd(n.Y, ord, out)
+	case Sel:
+		collectEntriesOrd(n.X, ord, out)
+	case Index:
+		collectEntriesOrd(n.X, ord, out)
+		collectEntriesOrd(n.I, ord, out)
+	case Forall:
+		if n.Lo != nil {
+			collectEntriesOrd(n.Lo, ord, out)
+		}
+		if n.Hi != nil {
+			collectEntriesOrd(n.Hi, ord, out)
+		}
+		collectEntriesOrd(n.Body, ord, out)
+	case Ite:
+		collectEntriesOrd(n.C, ord, out)
+		collectEntriesOrd(n.A, ord, out)
+		collectEntriesOrd(n.B, ord, out)
+	case Call:
+		if n.Fun == "entry" && len(n.Args) == 2 {
+			if lit, ok := n.Args[0].(IntLit); ok && lit.V == fmt.Sprint(ord) {
+				*out = append(*out, n.Args[1])
+			}
+			return
+		}
+		for _, a := range n.Args {
+			collectEntriesOrd(a, ord, out)
+		}
+	}
 }
